@@ -126,4 +126,47 @@ theorem containsChar_iff {r : Rep} {s : Bytes} (h : Models r s) (c : UInt8) (hc 
     rw [List.getD_eq_getElem?_getD, List.getElem?_eq_getElem hi] at this
     exact absurd he (by simpa using this)
 
+/-! ### `toInt`/`toLong` on number texts with a tail -/
+
+/-- the digit loop stops at a tail that does not start with a digit -/
+theorem digitLoop_stop (t : Bytes) (y : Int) (ht : ∀ c, t.head? = some c → ¬ IsDigit c) : digitLoop t y = y := by
+  cases t with
+  | nil => rfl
+  | cons c t =>
+    have := ht c rfl
+    unfold IsDigit at this
+    simp only [digitLoop, this, if_false]
+
+theorem digitLoop_utoa_tail (n : Nat) (t : Bytes) (ht : ∀ c, t.head? = some c → ¬ IsDigit c) :
+    digitLoop (utoa n ++ t) 0 = n := by
+  unfold utoa
+  by_cases h0 : n = 0
+  · subst h0
+    simp only [if_true, List.singleton_append, digitLoop]
+    simp [digitLoop_stop t _ ht]
+  · simp only [h0, if_false]
+    rw [digitLoop_digits, digitLoop_stop t _ ht]
+
+theorem signSplit_utoa_tail (n : Nat) (t : Bytes) : signSplit (utoa n ++ t) = (1, utoa n ++ t) := by
+  obtain ⟨c, u, hu, hd⟩ := utoa_head_digit n
+  rw [hu, List.cons_append]
+  exact signSplit_digit c _ hd
+
+/-- `toInt()`/`toLong()` (`myatoi`/`myatol`) on an optional sign, a decimal number of ANY size and a tail that does not
+    start with a digit: the value, reduced to the two's-complement range -/
+theorem atoi_tail (n : Nat) (t : Bytes) (ht : ∀ c, t.head? = some c → ¬ IsDigit c) :
+    myatoi (utoa n ++ t) = wrap32 n ∧ myatoi (45 :: (utoa n ++ t)) = wrap32 (-n) ∧ myatoi (43 :: (utoa n ++ t)) = wrap32 n ∧
+    myatol (utoa n ++ t) = wrap64 n ∧ myatol (45 :: (utoa n ++ t)) = wrap64 (-n) ∧ myatol (43 :: (utoa n ++ t)) = wrap64 n := by
+  have hd := digitLoop_utoa_tail n t ht
+  have hs := signSplit_utoa_tail n t
+  have h45 : signSplit (45 :: (utoa n ++ t)) = (-1, utoa n ++ t) := rfl
+  have h43 : signSplit (43 :: (utoa n ++ t)) = (1, utoa n ++ t) := rfl
+  refine ⟨?_, ?_, ?_, ?_, ?_, ?_⟩
+  · unfold myatoi; rw [hs]; simp [hd]
+  · unfold myatoi; rw [h45]; simp [hd]
+  · unfold myatoi; rw [h43]; simp [hd]
+  · unfold myatol; rw [hs]; simp [hd]
+  · unfold myatol; rw [h45]; simp [hd]
+  · unfold myatol; rw [h43]; simp [hd]
+
 end AslProofs.Str
